@@ -31,7 +31,7 @@ MINIMUMS = {
     "thorough": {"distinct_nontrivial": 25000, "attempts": 600000, "attempts_on_inner": 300000, "ids_rechecked": 3000000, "mode:seal": 6000, "mode:dry-run": 6000, "mode:generate": 1500},
 }
 N = {"quick": 1600, "thorough": 48000}
-TIMEOUT = {"quick": 900, "thorough": 10800}
+TIMEOUT = {"quick": 2400, "thorough": 14400}
 
 
 def a_value(rng, p, zoo, b, sh, nid):
